@@ -3,8 +3,8 @@
 import json, os, subprocess, sys
 for prop in sys.argv[1:]:
     for v in "AB":
-        patch = "/tmp/seed2/%s/variant_%s.diff" % (prop, v)
-        demo = "/tmp/seed2/%s/demo_%s.py" % (prop, v)
+        patch = os.environ.get("SEED_ROOT", "/tmp/seed2") + "/%s/variant_%s.diff" % (prop, v)
+        demo = os.environ.get("SEED_ROOT", "/tmp/seed2") + "/%s/demo_%s.py" % (prop, v)
         if not os.path.exists(patch):
             print(prop, v, "no patch"); continue
         conf = json.loads(subprocess.run([sys.executable, "/verif/tools/seed_confirm.py", patch, demo], capture_output=True, text=True).stdout or "{}")
